@@ -234,6 +234,81 @@ theorem select_none_iff (lib : List (AmpSpec ℝ)) (ok : Bool) (g p e : ℝ) :
 theorem argminNf_first (l : List (Cand ℝ)) (c : Cand ℝ) (h : argminNf l = some c) :
     c ∈ l ∧ ∀ x ∈ l, nfLt x.nf c.nf = false := argminNf_spec l c h
 
+/-! ### gain fall-back, multiband permitted set, and the statement in one piece -/
+
+/-- when no candidate reaches its minimum gain (3 dB allowance for EDFAs, none for Raman) the non-Raman models
+are used with input padding — a Raman model is never chosen below its minimum gain -/
+theorem gain_fallback_spec (e r : List (Cand ℝ)) (hno : ∀ x ∈ e ++ r, ¬ 0 < x.gainMin) (hne : e ≠ []) :
+    acceptable e r = some (powerStage e) := by
+  have h1 : ((e ++ r).filter (fun x => decide (Edfa.zero < x.gainMin))).isEmpty = true := by
+    rw [List.isEmpty_iff, List.filter_eq_nil_iff]
+    intro x hx; simpa [Edfa.zero] using hno x hx
+  have h2 : e.isEmpty = false := by simpa [List.isEmpty_iff] using hne
+  simp only [acceptable, h1, h2, if_true, Bool.false_eq_true, if_false]
+
+theorem mem_selectionLibrary (lib : List (AmpSpec ℝ)) (r : List String) (a : AmpSpec ℝ) :
+    a ∈ selectionLibrary lib r ↔ a ∈ lib ∧ a.isMulti = false ∧ (r = [] ∨ a.name ∈ r) := by
+  simp only [selectionLibrary]
+  by_cases hr : r = []
+  · subst hr; simp
+  · have : r.isEmpty = false := by simpa [List.isEmpty_iff] using hr
+    simp only [this, hr, Bool.false_eq_true, if_false, List.mem_filter, Bool.not_eq_true', List.contains_iff_mem,
+      false_or]
+    tauto
+
+/-- the permitted multiband entries: multiband, in the restriction list in force (or allowed for design when
+there is none), and every member covers one of the design bands -/
+theorem nodeRestrictionsMulti_permitted (lib : List (AmpSpec ℝ)) (c : NodeCtx) (bands : List Band) (n : String)
+    (h0 : c.typeVariety = "") (h : n ∈ nodeRestrictionsMulti lib c bands) :
+    ∃ m ∈ lib, m.name = n ∧ m.isMulti = true ∧
+      (n ∈ restrictionList c ∨ (restrictionList c = [] ∧ m.allowedForDesign = true)) ∧
+      ∀ t ∈ m.multiBand.getD [], ∃ a b, lookup lib t = some a ∧ b ∈ bands ∧ a.covers b = true := by
+  simp only [nodeRestrictionsMulti, h0, ne_eq, not_true_eq_false, if_false, List.mem_map, List.mem_filter] at h
+  obtain ⟨m, ⟨⟨hm, hc⟩, hall⟩, rfl⟩ := h
+  simp only [Bool.and_eq_true, allowedBy, Bool.or_eq_true, List.contains_iff_mem, List.isEmpty_iff] at hc
+  refine ⟨m, hm, rfl, hc.1, hc.2, ?_⟩
+  intro t ht
+  have := List.all_eq_true.1 hall t ht
+  simp only [List.contains_iff_mem, List.mem_flatMap, List.mem_filterMap] at this
+  obtain ⟨m', _, t', _, b, hb, hopt⟩ := this
+  cases hlk : lookup lib t' with
+  | none => simp [hlk] at hopt
+  | some a =>
+    simp only [hlk] at hopt
+    split at hopt
+    · rename_i hcov
+      simp only [Option.some.injEq] at hopt
+      subst hopt
+      exact ⟨a, b, hlk, hb, hcov⟩
+    · cases hopt
+
+/-- **C10 in one statement** (single-band `Edfa` node without user type): whatever auto-design chooses is a
+single-band library model that covers the design band, comes from the restriction source in force (own list,
+else ROADM booster, else ROADM preamp, else allowed_for_design), is Raman only if Raman is allowed, is capable
+whenever some permitted model is capable, and no permitted capable model is quieter at that gain. -/
+theorem auto_selection_main (lib : List (AmpSpec ℝ)) (c : NodeCtx) (b : Band) (ok : Bool) (g p e : ℝ)
+    (ch : Choice ℝ) (h0 : c.typeVariety = "") (hne : nodeRestrictions lib c b ≠ [])
+    (h : selectEdfa (selectionLibrary lib (nodeRestrictions lib c b)) ok g p e = some ch) :
+    (∃ a ∈ lib, a.name = ch.variety ∧ a.isMulti = false ∧ a.fMin ≤ b.fMin ∧ b.fMax ≤ a.fMax ∧
+      (ch.variety ∈ restrictionList c ∨ (restrictionList c = [] ∧ a.allowedForDesign = true))) ∧
+    (ok = false → ∃ a ∈ lib, a.name = ch.variety ∧ a.raman = false) ∧
+    (∀ a ∈ lib, a.isMulti = false → a.name ∈ nodeRestrictions lib c b → (a.raman = false ∨ ok = true) →
+      0 < gainMinAttr a g → 0 < powerAttr a g p e →
+      0 < ch.gainMin ∧ 0 < ch.power ∧ ch.powerReduction = 0 ∧ nfLt (edfaNf a g) ch.nf = false) := by
+  refine ⟨selected_covers_band lib c b ok g p e ch h0 hne h, ?_, ?_⟩
+  · intro hok
+    subst hok
+    obtain ⟨a, ha, hn, hr⟩ := raman_only_if_allowed _ g p e ch h
+    exact ⟨a, ((mem_selectionLibrary lib _ a).1 ha).1, hn, hr⟩
+  · intro a ha hm hin hr hg hp
+    have ha' : a ∈ selectionLibrary lib (nodeRestrictions lib c b) :=
+      (mem_selectionLibrary lib _ a).2 ⟨ha, hm, Or.inr hin⟩
+    have hcap : ∃ a ∈ selectionLibrary lib (nodeRestrictions lib c b),
+        (a.raman = false ∨ ok = true) ∧ 0 < gainMinAttr a g ∧ 0 < powerAttr a g p e := ⟨a, ha', hr, hg, hp⟩
+    obtain ⟨c1, c2⟩ := capable_if_any_capable _ ok g p e ch hcap h
+    exact ⟨c1, c2, reduction_zero_if_capable _ ok g p e ch hcap h,
+      nf_minimal_among_capable _ ok g p e ch h a ha' hr hg hp⟩
+
 /-! ### multiband preselection -/
 
 private theorem preselectLoop_sub (lib : List (AmpSpec ℝ)) (e : ℝ) (bts : List (BandTarget ℝ)) :
